@@ -49,6 +49,35 @@ theorem C11_numeric_boundary (k : String) (a : Int) :
   have := C11_numeric_order k a a
   refine ⟨?_, ?_, ?_, ?_⟩ <;> simp [this.1, this.2.1, this.2.2.1, this.2.2.2, R.ofBool]
 
+/-- C11_numeric_trichotomy: for any two integers exactly one of NumericLessThan, NumericEquals and
+    NumericGreaterThan holds, and the inclusive operators are the strict ones joined with equality — so
+    `...ThanEquals` is never the same test as `Equals` nor as the strict operator. -/
+theorem C11_numeric_trichotomy (k : String) (a b : Int) :
+    let lt := evalBase "NumericLessThan" k (.int b) [(k, .int a)]
+    let eq := evalBase "NumericEquals" k (.int b) [(k, .int a)]
+    let gt := evalBase "NumericGreaterThan" k (.int b) [(k, .int a)]
+    let le := evalBase "NumericLessThanEquals" k (.int b) [(k, .int a)]
+    let ge := evalBase "NumericGreaterThanEquals" k (.int b) [(k, .int a)]
+    ((lt = .t ∧ eq = .f ∧ gt = .f) ∨ (lt = .f ∧ eq = .t ∧ gt = .f) ∨ (lt = .f ∧ eq = .f ∧ gt = .t)) ∧
+    (le = .t ↔ lt = .t ∨ eq = .t) ∧ (ge = .t ↔ gt = .t ∨ eq = .t) ∧
+    (le = .f ↔ gt = .t) ∧ (ge = .f ↔ lt = .t) := by
+  obtain ⟨h1, h2, h3, h4⟩ := C11_numeric_order k a b
+  have h5 : evalBase "NumericEquals" k (.int b) [(k, .int a)] = R.ofBool (a == b) := by
+    rw [C11_equals "NumericEquals" (by simp)]; rfl
+  simp only [h1, h2, h3, h4, h5, R.ofBool]
+  rcases Int.lt_trichotomy a b with h | h | h
+  · have : ¬ b < a := by omega
+    have : ¬ a = b := by omega
+    have : a ≤ b := by omega
+    have : ¬ b ≤ a := by omega
+    simp [*]
+  · subst h; simp
+  · have : ¬ a < b := by omega
+    have : ¬ a = b := by omega
+    have : b ≤ a := by omega
+    have : ¬ a ≤ b := by omega
+    simp [*]
+
 /-- C11_date_order: the same on instants of equal awareness; an aware and a naive value are incomparable -/
 theorem C11_date_order (k : String) (a b : Int) (aw : Bool) :
     evalBase "DateLessThan" k (.dt b aw) [(k, .dt a aw)] = R.ofBool (decide (a < b)) ∧
